@@ -125,7 +125,9 @@ impl BigRat {
             let ndigits = match digits {
                 Digits::Default | Digits::Scientific | Digits::Engineering => 6,
                 Digits::FullInt | Digits::Fraction => 1000,
-                Digits::Digits(n) => intdigits as i32 + n as i32,
+                Digits::Digits(n) => {
+                    (intdigits as u64).saturating_add(n).min(i32::MAX as u64) as i32
+                }
             };
             // Conditions for exiting:
             // 1. The number is already exact and all the integer
